@@ -969,6 +969,10 @@ pub fn worker(a: &Args) -> i32 {
         // names ever reach.
         "enum-lens" => {
             let mut lens: Vec<usize> = (1..=130).collect();
+            if runs < 1000 {
+                // sizes of common buffers and their neighbours, also in the quick tier
+                lens.extend([255usize, 256, 257, 511, 512, 513, 1023, 1024, 1025, 4095, 4096, 4097, 8191, 8192, 8193, 65535, 65536, 65537]);
+            }
             if runs >= 1000 {
                 lens.extend(131..=300);
                 for b in [511usize, 512, 513, 1023, 1024, 1025, 2047, 2048, 2049, 4095, 4096, 4097, 8191, 8192, 8193, 16384, 32767, 32768, 65535, 65536, 65537] {
